@@ -2109,7 +2109,11 @@ impl<'a, R: FileManager> FrontendCtx<'a, R> {
         }
         self.partial_validators.insert(rt_uuid.clone(), None);
 
+        // the body of a named type sees its own type parameters only, not the ones that
+        // happen to be applied where it is referenced from
+        let outer_stack = std::mem::take(&mut self.type_application_stack);
         let ty = self.extract_addressed_type(&fat, type_args, anchor);
+        self.type_application_stack = outer_stack;
         match ty {
             Ok(ty) => self.insert_definition(rt_uuid.clone(), ty),
             Err(e) => {
